@@ -35,6 +35,17 @@ def _mods():
 
 # ------------------------------------------------------------------------------ case checkers
 
+def _prim(fn, *a):
+    """A primitive's answer, or how it failed (an exception - also a Rust panic - is an outcome, not a crash of the check)."""
+    try:
+        return fn(*a)
+    except BaseException as e:  # noqa: BLE001
+        from .. import worker
+        if worker.is_control(e):
+            raise
+        return f"raises {type(e).__name__}"
+
+
 def check_year(acc, y, mods):
     pendulum, py, rs = mods
     exp_leap = calendar.isleap(y)
@@ -45,7 +56,7 @@ def check_year(acc, y, mods):
         if be is None:
             continue
         acc.count("evaluations", 3)
-        got = (be.is_leap(y), be.is_long_year(y), be.days_in_year(y))
+        got = (_prim(be.is_leap, y), _prim(be.is_long_year, y), _prim(be.days_in_year, y))
         if got != (exp_leap, exp_long, exp_days):
             sub = ["is_leap", "is_long_year", "days_in_year"][
                 [a == b for a, b in zip(got, (exp_leap, exp_long, exp_days))].index(False)]
@@ -58,12 +69,12 @@ def check_date_fn(acc, y, m, d, mods, exp_wd=None):
     pendulum, py, rs = mods
     if exp_wd is None:
         exp_wd = dt_.date(y, m, d).isoweekday()
-    a = py.week_day(y, m, d)
+    a = _prim(py.week_day, y, m, d)
     acc.c["evaluations"] += 1
     if a != exp_wd:
         acc.mismatch("week_day.py", "vs-stdlib", {"kind": "date", "y": y, "m": m, "d": d}, a, exp_wd)
     if rs is not None:
-        b = rs.week_day(y, m, d)
+        b = _prim(rs.week_day, y, m, d)
         acc.c["evaluations"] += 1
         if b != exp_wd:
             acc.mismatch("week_day.rs", "vs-stdlib", {"kind": "date", "y": y, "m": m, "d": d}, b, exp_wd)
@@ -89,7 +100,7 @@ def check_getters(acc, y, m, d, mods, with_datetime=False):
     pendulum, py, rs = mods
     nd = dt_.date(y, m, d)
     iso = nd.isocalendar()
-    mc = calendar.monthcalendar(y, m)
+    mc = calendar.Calendar(0).monthdayscalendar(y, m)
     wom = next(i for i, row in enumerate(mc) if d in row) + 1
     exp = {
         "day_of_week": nd.weekday(),
@@ -121,7 +132,7 @@ AWARE_ZONES = ("Asia/Tokyo", "Pacific/Auckland", "America/Los_Angeles", "Asia/Ko
 def check_getters_obj(acc, o, case):
     y, m, d = o.year, o.month, o.day
     nd = dt_.date(y, m, d)
-    mc = calendar.monthcalendar(y, m)
+    mc = calendar.Calendar(0).monthdayscalendar(y, m)
     exp = {"day_of_week": nd.weekday(), "day_of_year": nd.timetuple().tm_yday, "week_of_year": nd.isocalendar()[1],
            "week_of_month": next(i for i, row in enumerate(mc) if d in row) + 1,
            "days_in_month": calendar.monthrange(y, m)[1], "quarter": (m + 2) // 3, "is_leap_year": calendar.isleap(y),
@@ -155,12 +166,12 @@ def check_local_time(acc, t, off, us, mods, stdlib=True):
         if e2 != exp:   # the two oracles must agree with each other
             raise AssertionError(f"reference models disagree at {t}+{off}: {exp} {e2}")
     case = {"kind": "lt", "t": t, "off": off, "us": us}
-    a = tuple(py.local_time(t, off, us))
+    a = _prim(lambda: tuple(py.local_time(t, off, us)))
     acc.c["evaluations"] += 1
     if a != exp:
         acc.mismatch("local_time.py", "vs-stdlib", case, a, exp)
     if rs is not None:
-        b = tuple(rs.local_time(t, off, us))
+        b = _prim(lambda: tuple(rs.local_time(t, off, us)))
         acc.c["evaluations"] += 1
         if b != exp:
             acc.mismatch("local_time.rs", "vs-stdlib", case, b, exp)
@@ -240,7 +251,7 @@ def run_shard(shard):
                     for nm, be in (("py", py), ("rs", rs)):
                         if be is None:
                             continue
-                        got = tuple(be.local_time(t, off, 5))
+                        got = _prim(lambda: tuple(be.local_time(t, off, 5)))
                         acc.c["evaluations"] += 1
                         if got != exp:
                             acc.mismatch(f"local_time.{nm}", "float-floor",
